@@ -39,6 +39,15 @@ pub struct Norm {
     collect_as_result: bool,
     from_fn: BTreeMap<usize, usize>,
     from_fn_idx: usize,
+    /// side-car `opt=via:<place>:<fn>`: iteration over the non-indexable collection `<place>` (a std set / map) goes through the
+    /// prelude model function `<fn>(&place)` returning its elements as a Vec (every element exactly once, order unspecified)
+    pub via: Vec<(String, String)>,
+    /// side-car `opt=drain:<binder>`: an owned `.into_iter()` whose closure binder is <binder> moves non-Copy elements out
+    /// front to back (`remove(0)`) instead of indexing
+    pub drain: Vec<String>,
+    pub want_after_tail: bool,
+    /// side-car `opt=vunwrap`: rule N8e is applied in this function
+    pub vunwrap: bool,
 }
 
 fn id(s: &str) -> Ident {
@@ -200,6 +209,8 @@ enum Adapter {
     Skip(Expr),
     Zip(Box<Iter>),
     Map(syn::ExprClosure),
+    /// `.filter_map(f)`: only as the last adapter before `.collect()`
+    FilterMap(syn::ExprClosure),
     Flatten,
 }
 
@@ -272,6 +283,13 @@ fn parse_iter(e: &Expr, bare_ok: bool) -> Option<Iter> {
                     let other = parse_iter(args[0], true)?;
                     it.adapters.push(Adapter::Zip(Box::new(other)));
                     Some(it)
+                }
+                ("filter_map", 1) => {
+                    let mut it = parse_iter(&m.receiver, false)?;
+                    match strip_paren(args[0]) {
+                        Expr::Closure(c) => { it.adapters.push(Adapter::FilterMap(c.clone())); Some(it) }
+                        _ => None,
+                    }
                 }
                 ("map", 1) => {
                     let mut it = parse_iter(&m.receiver, false)?;
@@ -381,7 +399,7 @@ impl<'a> Visit<'a> for HasReturn {
 
 impl Norm {
     pub fn new(from_fn: BTreeMap<usize, usize>) -> Self {
-        Norm { rules: vec![], dropped: vec![], errors: vec![], nloops: 0, nrets: 0, hoisted: vec![], map_kind: None, tmp: 0, hint: String::new(), names: BTreeMap::new(), let_ctx: None, out_ty: None, result_collect: None, result_collect_done: false, collect_as_result: false, from_fn, from_fn_idx: 0 }
+        Norm { rules: vec![], dropped: vec![], errors: vec![], nloops: 0, nrets: 0, hoisted: vec![], map_kind: None, tmp: 0, hint: String::new(), names: BTreeMap::new(), let_ctx: None, out_ty: None, result_collect: None, result_collect_done: false, collect_as_result: false, from_fn, from_fn_idx: 0, via: vec![], drain: vec![], want_after_tail: false, vunwrap: false }
     }
 
     fn rule(&mut self, r: &str, sp: Span, note: &str) {
@@ -432,7 +450,16 @@ impl Norm {
         if has_tail_expr {
             let last = block.stmts.pop().unwrap();
             block.stmts.push(tail);
+            if self.want_after_tail {
+                // side-car `//@after-tail`: the tail value is bound to `__ret` so ghost text can mention it (`let __ret = E; <ghost>; __ret`)
+                if let Stmt::Expr(e, None) = last {
+                    block.stmts.push(parse_quote!(let __ret = #e;));
+                    block.stmts.push(parse_quote!(__vx_after_tail!();));
+                    block.stmts.push(Stmt::Expr(parse_quote!(__ret), None));
+                }
+            } else {
             block.stmts.push(last);
+            }
         } else {
             block.stmts.push(tail);
         }
@@ -562,6 +589,22 @@ impl Norm {
             }));
             return Some(pre);
         }
+        // N2d: owned `v.into_iter()` / `for x in v` over non-Copy elements (side-car opt=drain:<binder>): elements are moved out
+        // front to back, which is the order and ownership transfer of Vec's IntoIter
+        if let (Src::Index { base, by_ref: false }, true, Pat::Ident(pi)) = (&it.src, it.adapters.is_empty(), pat) {
+            if self.drain.iter().any(|d| pi.ident == d) {
+                let v = self.fresh("src");
+                let b = base.clone();
+                pre.push(parse_quote!(let mut #v = #b;));
+                pre.push(parse_quote!(while #v.len() > 0 {
+                    let #pat = #v.remove(0);
+                    __vx_loop_body_here!();
+                    #(#body)*
+                }));
+                self.rule("N2", sp, "owned iteration over non-Copy elements -> `while v.len() > 0 { let x = v.remove(0); .. }` (front to back)");
+                return Some(pre);
+            }
+        }
         // N2: indexable source with take / enumerate / zip / skip
         let (idx, lo, hi, elem, notes) = self.lower_iter(it, &mut pre)?;
         self.rule("N2", sp, &format!("for over slice iterator [{}] -> index loop", notes));
@@ -625,7 +668,29 @@ impl Norm {
         let Src::Index { base, by_ref } = &it.src else { return None };
         // owned sources (for x in v / v.into_iter() / f(..)) are always moved into `__src_<hint>`, so the
         // side-car can name the iterated sequence whatever expression produced it
-        let base = if *by_ref { self.bind_simple(base.clone(), "src", pre) } else {
+        let via_key = quote!(#base).to_string().replace(' ', "");
+        let via_fn = self.via.iter().find(|(k, _)| *k == via_key).map(|(_, f)| id(f));
+        let base = if let Some(f) = via_fn {
+            // elements of a std set / map through the prelude model function (N2s)
+            let rb = ref_of(base);
+            let v = self.fresh("src");
+            pre.push(parse_quote!(let #v = #f(#rb);));
+            self.rules.push(RuleApp { rule: "N2".into(), line: 0, note: format!("iteration over the non-indexable collection `{via_key}` through the model function {f}() (every element once, order unspecified)") });
+            parse_quote!(#v)
+        } else if let (true, Expr::Index(ix)) = (*by_ref, strip_paren(base)) {
+            // `x[a..b].iter()`: the sub-slice as a value (N21)
+            if let Expr::Range(rg) = strip_paren(&ix.index) {
+                if !matches!(rg.limits, syn::RangeLimits::HalfOpen(_)) { return None; }
+                let b = &ix.expr;
+                let lo: Expr = rg.start.as_ref().map(|b| (**b).clone()).unwrap_or_else(|| parse_quote!(0));
+                let hi: Expr = rg.end.as_ref().map(|b| (**b).clone()).unwrap_or_else(|| parse_quote!(#b.len()));
+                let rb = ref_of(b);
+                let v = self.fresh("src");
+                pre.push(parse_quote!(let #v = vsub(#rb, #lo, #hi);));
+                self.rules.push(RuleApp { rule: "N21".into(), line: 0, note: "x[a..b].iter() -> vsub(&x, a, b) indexed".into() });
+                parse_quote!(#v)
+            } else { self.bind_simple(base.clone(), "src", pre) }
+        } else if *by_ref { self.bind_simple(base.clone(), "src", pre) } else {
             let v = self.fresh("src");
             let b = base.clone();
             pre.push(parse_quote!(let #v = #b;));
@@ -677,7 +742,7 @@ impl Norm {
                     elem = parse_quote!((#ei, #elem));
                     notes.push("enumerate");
                 }
-                Adapter::Rev | Adapter::Map(_) | Adapter::Flatten => return None,
+                Adapter::Rev | Adapter::Map(_) | Adapter::FilterMap(_) | Adapter::Flatten => return None,
             }
         }
         Some((idx, lo, hi, elem, notes.join(",")))
@@ -877,17 +942,26 @@ impl Norm {
 
     fn collect_to_block_inner(&mut self, it: &Iter, sp: Span) -> Option<Expr> {
         let mut it = it.clone();
+        let mut is_filter_map = false;
         let map = match it.adapters.last() {
             Some(Adapter::Map(c)) => {
                 let c = c.clone();
                 it.adapters.pop();
                 Some(c)
             }
+            Some(Adapter::FilterMap(c)) => {
+                let c = c.clone();
+                it.adapters.pop();
+                is_filter_map = true;
+                Some(c)
+            }
             _ => None,
         };
-        if it.adapters.iter().any(|a| matches!(a, Adapter::Map(_))) {
+        if it.adapters.iter().any(|a| matches!(a, Adapter::Map(_) | Adapter::FilterMap(_))) {
             return None;
         }
+        // the declared type of the `let` decides the container: Vec (push) or HashSet (insert)
+        let into_set = match &self.out_ty { Some(syn::Type::Path(tp)) => tp.path.segments.last().map(|s| s.ident == "HashSet").unwrap_or(false), _ => false };
         let out = self.fresh("out");
         let (pat, mut body, val): (Pat, Vec<Stmt>, Expr) = match &map {
             Some(c) => self.closure_parts(c)?,
@@ -901,8 +975,30 @@ impl Norm {
             self.result_collect_done = true;
             self.collect_as_result = false;
             self.rule("N5", sp, "collect::<Result<Vec<_>,_>>()? -> push loop returning the first Err (std definition)");
+        } else if is_filter_map {
+            // std: filter_map yields the payload of every `Some` the closure returns, in order
+            if into_set { body.push(parse_quote!(match #val { Some(__v) => { #out.insert(__v); } None => {} })); }
+            else { body.push(parse_quote!(match #val { Some(__v) => { #out.push(__v); } None => {} })); }
+        } else if into_set {
+            body.push(parse_quote!(#out.insert(#val);));
         } else {
-            body.push(parse_quote!(#out.push(#val);));
+            // an element expression that itself contains loops is evaluated into a local first (same evaluation order: the
+            // argument is evaluated before the call either way), so the loops are statements of the body, not call arguments
+            struct HasLoop(bool);
+            impl<'x> Visit<'x> for HasLoop {
+                fn visit_expr_for_loop(&mut self, _: &'x syn::ExprForLoop) { self.0 = true; }
+                fn visit_expr_while(&mut self, _: &'x syn::ExprWhile) { self.0 = true; }
+                fn visit_expr_loop(&mut self, _: &'x syn::ExprLoop) { self.0 = true; }
+            }
+            let mut hl = HasLoop(false);
+            hl.visit_expr(&val);
+            if hl.0 {
+                let e = self.fresh("elem");
+                body.push(parse_quote!(let #e = #val;));
+                body.push(parse_quote!(#out.push(#e);));
+            } else {
+                body.push(parse_quote!(#out.push(#val);));
+            }
         }
         let loop_stmts: Vec<Stmt> = match (&it.src, it.adapters.is_empty()) {
             (Src::Range { lo, hi }, true) => {
@@ -911,15 +1007,43 @@ impl Norm {
             }
             _ => self.emit_loop(&it, &pat, body, sp)?,
         };
-        self.rule("N5", sp, "iterator .map(..).collect() -> push loop");
-        let decl: Stmt = match self.out_ty.take() {
-            Some(ty) => parse_quote!(let mut #out: #ty = Vec::new();),
-            None => parse_quote!(let mut #out = Vec::new();),
+        self.rule("N5", sp, if is_filter_map { "iterator .filter_map(..).collect() -> loop pushing/inserting the Some payloads" } else { "iterator .map(..).collect() -> push loop" });
+        let decl: Stmt = match (self.out_ty.take(), into_set) {
+            (Some(ty), true) => parse_quote!(let mut #out: #ty = HashSet::new();),
+            (Some(ty), false) => parse_quote!(let mut #out: #ty = Vec::new();),
+            (None, _) => parse_quote!(let mut #out = Vec::new();),
         };
         Some(parse_quote!({
             #decl
             #(#loop_stmts)*
             #out
+        }))
+    }
+
+    /// N5m: `<iter>[.map(f)].max()` -> Option accumulator loop (std definition, last maximal element wins)
+    fn max_to_block(&mut self, it: &Iter, sp: Span) -> Option<Expr> {
+        let mut it = it.clone();
+        let map = match it.adapters.last() {
+            Some(Adapter::Map(c)) => { let c = c.clone(); it.adapters.pop(); Some(c) }
+            _ => None,
+        };
+        if it.adapters.iter().any(|a| matches!(a, Adapter::Map(_) | Adapter::FilterMap(_))) { return None; }
+        let saved = self.hint.clone();
+        if self.hint.is_empty() { if let Some(c) = &map { if c.inputs.len() == 1 { self.hint = pat_hint(&c.inputs[0]); } } }
+        let acc = self.fresh("max");
+        let (pat, mut body, val): (Pat, Vec<Stmt>, Expr) = match &map {
+            Some(c) => match self.closure_parts(c) { Some(x) => x, None => { self.hint = saved; return None; } },
+            None => { let x = self.fresh("x"); (parse_quote!(#x), vec![], parse_quote!(#x)) }
+        };
+        body.push(parse_quote!(let __m = #val;));
+        body.push(parse_quote!(#acc = match #acc { None => Some(__m), Some(__a) => if __m >= __a { Some(__m) } else { Some(__a) } };));
+        let loop_stmts = match self.emit_loop(&it, &pat, body, sp) { Some(v) => v, None => { self.hint = saved; return None; } };
+        self.hint = saved;
+        self.rule("N5", sp, "iterator .map(..).max() -> Option accumulator loop");
+        Some(parse_quote!({
+            let mut #acc = None;
+            #(#loop_stmts)*
+            #acc
         }))
     }
 
@@ -1441,6 +1565,70 @@ impl<'a> VisitMut for Rewriter<'a> {
                             self.n.errors.push(format!("unsupported .extend() argument at source line {}", sp.start().line));
                         }
                     }
+                    ("retain", 1) => {
+                        // N7: std `Vec::retain(f)`: "removes all elements e for which f(&e) returns false ... visiting each element
+                        // exactly once in the original order, and preserves the order of the retained elements" -> index scan that
+                        // evaluates the (already normalised) closure body in place and `remove`s the element when it yields false.
+                        // N7m: `BTreeMap/HashMap::retain(|k, v| ..)`: "retains only the elements specified by the predicate" -> scan
+                        // over a snapshot of the keys (model method vkeys()), `get_mut` + closure body, `remove(&k)` when false.
+                        if let Expr::Closure(c) = strip_paren(&m.args[0]) {
+                            let recv = (*m.receiver).clone();
+                            let mut hr = HasReturn(false);
+                            hr.visit_expr(&c.body);
+                            if hr.0 || !is_simple(&recv) {
+                                self.n.errors.push(format!("unsupported .retain() (closure returns / receiver not a place) at source line {}", sp.start().line));
+                            } else {
+                                let (stmts, val): (Vec<Stmt>, Expr) = match &*c.body {
+                                    Expr::Block(b) if b.label.is_none() => {
+                                        let mut st = b.block.stmts.clone();
+                                        match st.pop() { Some(Stmt::Expr(e, None)) => (st, e), Some(o) => { st.push(o); (st, parse_quote!(())) } None => (vec![], parse_quote!(())) }
+                                    }
+                                    e => (vec![], e.clone()),
+                                };
+                                if c.inputs.len() == 1 {
+                                    let pat = c.inputs[0].clone();
+                                    let saved = std::mem::replace(&mut self.n.hint, pat_hint(&pat));
+                                    let i = self.n.fresh("i");
+                                    let keep = self.n.fresh("keep");
+                                    self.n.hint = saved;
+                                    self.n.rule("N7", sp, "v.retain(closure) -> in-order index scan: closure body in place, v.remove(i) when it yields false (std definition)");
+                                    replacement = Some(parse_quote!({
+                                        let mut #i = 0;
+                                        while #i < #recv.len() {
+                                            __vx_loop_body_here!();
+                                            let #keep = { let #pat = &#recv[#i]; #(#stmts)* #val };
+                                            if #keep { #i += 1; } else { #recv.remove(#i); }
+                                        }
+                                    }));
+                                } else if c.inputs.len() == 2 {
+                                    let (kp, vp) = (c.inputs[0].clone(), c.inputs[1].clone());
+                                    let saved = std::mem::replace(&mut self.n.hint, pat_hint(&vp));
+                                    let ks = self.n.fresh("ks");
+                                    let j = self.n.fresh("j");
+                                    let k = self.n.fresh("k");
+                                    let keep = self.n.fresh("keep");
+                                    self.n.hint = saved;
+                                    let kbind: Vec<Stmt> = if matches!(kp, Pat::Wild(_)) { vec![] } else { vec![parse_quote!(let #kp = &#k;)] };
+                                    self.n.rule("N7", sp, "map.retain(|k, v| ..) -> scan over a snapshot of the keys: get_mut + closure body in place, map.remove(&k) when it yields false (std definition)");
+                                    replacement = Some(parse_quote!({
+                                        let #ks = #recv.vkeys();
+                                        let mut #j = 0;
+                                        while #j < #ks.len() {
+                                            let #k = #ks[#j];
+                                            __vx_loop_body_here!();
+                                            let #keep = { #(#kbind)* let #vp = #recv.get_mut(&#k).unwrap(); #(#stmts)* #val };
+                                            if !#keep { #recv.remove(&#k); }
+                                            #j += 1;
+                                        }
+                                    }));
+                                } else {
+                                    self.n.errors.push(format!("unsupported .retain() closure arity at source line {}", sp.start().line));
+                                }
+                            }
+                        } else {
+                            self.n.errors.push(format!("unsupported .retain() argument at source line {}", sp.start().line));
+                        }
+                    }
                     ("or_default", 0) => {
                         // N16b: `m.entry(k).or_default()` -> `m.entry_or_default(k)` (one model method of the unit's map type: the value at
                         // k, inserting Default::default() first when absent — the std definition of the two calls together)
@@ -1450,6 +1638,36 @@ impl<'a> VisitMut for Rewriter<'a> {
                                 self.n.rule("N16", sp, "m.entry(k).or_default() -> m.entry_or_default(k)");
                                 replacement = Some(parse_quote!(#r.entry_or_default(#k)));
                             }
+                        }
+                    }
+                    ("add_many", 1) | ("mul_many", 1) => {
+                        // N4c: library folds that take `impl IntoIterator<Item = Target>`: an argument that merely iterates a
+                        // slice/array/Vec (`xs.iter()[.copied()/.cloned()]`, `&xs`, `xs`) is passed as that sequence (`xs.as_slice()`);
+                        // the prelude stub takes the iterated sequence
+                        if let Some(it) = parse_iter(&m.args[0], true) {
+                            if let (Src::Index { base, .. }, true) = (&it.src, it.adapters.is_empty()) {
+                                if is_simple(base) {
+                                    let b = match strip_paren(base) { Expr::Reference(r) => (*r.expr).clone(), o => o.clone() };
+                                    let r = &m.receiver; let meth = &m.method;
+                                    self.n.rule("N4", sp, &format!(".{name}(slice iterator) -> .{name}(xs.as_slice())"));
+                                    replacement = Some(parse_quote!(#r.#meth(#b.as_slice())));
+                                }
+                            }
+                        }
+                        if replacement.is_none() { self.n.errors.push(format!("unsupported .{name}() argument at source line {}", sp.start().line)); }
+                    }
+                    ("unwrap_or_default", 0) if self.n.vunwrap => {
+                        // N8e: type-directed std method; the prelude trait VUnwrapOrDefault carries one trusted spec per payload type
+                        self.n.rule("N8", sp, ".unwrap_or_default() -> .vunwrap_or_default() (prelude trait: payload, or the type's Default when None)");
+                        let r = &m.receiver;
+                        replacement = Some(parse_quote!(#r.vunwrap_or_default()));
+                    }
+                    ("max", 0) if parse_iter(&m.receiver, false).is_some() => {
+                        // N5m: Iterator::max — None when empty; "if several elements are equally maximum, the last element is returned"
+                        let it = parse_iter(&m.receiver, false).unwrap();
+                        match self.n.max_to_block(&it, sp) {
+                            Some(b) => replacement = Some(b),
+                            None => self.n.errors.push(format!("unsupported .max() chain at source line {}", sp.start().line)),
                         }
                     }
                     ("fold", 2) => {
